@@ -92,7 +92,8 @@ InWindow(from, until, at) == from <= at /\ (until = 0 \/ at <= until)
 Base == [fam |-> None, kind |-> None, fmt |-> None, store |-> "sql", kh |-> "stable", vm |-> "issuer", exp |-> 0, at |-> 5,
          trusted |-> TRUE, allowUntrusted |-> FALSE, revoked |-> FALSE, checkSig |-> TRUE,
          presenter |-> "subject", holder |-> "signer", subjects |-> "one", vcFmt |-> None, vcState |-> "ok", verifyVCs |-> TRUE,
-         where |-> "top", efmt |-> None, mclass |-> None, pclass |-> None]
+         where |-> "top", efmt |-> None, mclass |-> None, pclass |-> None,
+         seq |-> <<>>, entry |-> "verifier"]
 
 Formats == {"ldp", "jwt"}
 
@@ -137,6 +138,31 @@ VPVcCases == {[Base EXCEPT !.fam = "vpvc", !.kind = "vp", !.fmt = f, !.vcFmt = v
                            !.allowUntrusted = au, !.subjects = su] :
               f \in Formats, vf \in Formats, st \in VCStates, vv \in BOOLEAN, au \in BOOLEAN, su \in {"one", "two-same"}}
 
+(***************************************************************************)
+(* Presentations that carry SEVERAL credentials (2..3), every combination  *)
+(* and every position of these element classes.  The statement demands of  *)
+(* EVERY carried credential that it verifies itself and that the presenter *)
+(* is its subject -- whatever stands before or after it:                   *)
+(*   genuine       credential G of the holder, issued by the trusted i     *)
+(*   genuine2      another credential of the holder by i (different id)    *)
+(*   other-issuer  credential of the holder by a second trusted issuer     *)
+(*   duplicate     byte-identical copy of G                                *)
+(*   tampered      copy of G: SAME id, copied proof, altered claim         *)
+(*   tampered2     a second, differently altered copy of G (same id)       *)
+(*   stripped      copy of G: same id, altered claim, proof value removed  *)
+(*   expired       credential of the holder by i that expired at 4         *)
+(*   other-subject valid credential by i about somebody else               *)
+(* entry: verifier.VerifyVP or the REST handler (POST .../verifier/vp).    *)
+(***************************************************************************)
+Elems == {"genuine", "genuine2", "other-issuer", "duplicate", "tampered", "tampered2", "stripped", "expired", "other-subject"}
+ElemVerifies(e) == e \in {"genuine", "genuine2", "other-issuer", "duplicate", "other-subject"}
+Seqs == {<<a, b>> : a \in Elems, b \in Elems} \cup {<<a, b, d>> : a \in Elems, b \in Elems, d \in Elems}
+VPMultiCases == {[Base EXCEPT !.fam = "vpmulti", !.kind = "vp", !.fmt = f, !.vcFmt = vf, !.seq = sq, !.entry = en, !.subjects = "many"] :
+              f \in Formats, vf \in Formats, sq \in Seqs, en \in {"verifier", "api"}}
+AnyElem(x, P(_)) == \E i \in 1..Len(x.seq) : P(x.seq[i])
+NotOfHolder(e) == e = "other-subject"
+Defective(e) == ~ElemVerifies(e)
+
 MutationClass == {"set-value", "change-type", "wrap-array", "unwrap-array", "remove-member", "rename-member",
                   "duplicate-member", "add-undefined-member", "add-defined-member", "reorder-array",
                   "duplicate-element", "remove-element", "add-element", "signature", "swap"}
@@ -168,6 +194,7 @@ WellFormedMut(c) ==
 Cases == (IF "vc" \in Families THEN VCCases ELSE {}) \cup
          (IF "vpsig" \in Families THEN VPSigCases ELSE {}) \cup
          (IF "vpvc" \in Families THEN VPVcCases ELSE {}) \cup
+         (IF "vpmulti" \in Families THEN VPMultiCases ELSE {}) \cup
          (IF "mut" \in Families THEN {c \in MutCases : WellFormedMut(c)} ELSE {})
 
 VARIABLES
@@ -208,7 +235,8 @@ Present ==
     /\ pc = "issued" /\ c.kind = "vp"
     /\ doc' = [doc EXCEPT !.vpSigner = IF c.presenter = "subject" THEN "d" ELSE "e",
                           !.vpCreated = 4, !.vpExpires = c.exp,
-                          !.own = c.presenter = "subject" /\ c.holder # "other" /\ c.subjects # "two-mixed" /\ ~Forged(c.vcState)]
+                          !.own = c.presenter = "subject" /\ c.holder # "other" /\ c.subjects # "two-mixed" /\ ~Forged(c.vcState)
+                                  /\ ~AnyElem(c, Defective) /\ ~AnyElem(c, NotOfHolder)]
     /\ pc' = "presented" /\ Log([a |-> "Present"]) /\ UNCHANGED <<c, verdict>>
 
 Mutate ==
@@ -266,7 +294,7 @@ VerifyVP(x, d, at) ==
         window == InWindow(d.vpCreated, d.vpExpires, at)
         key == Authorised(signerLog, signerKey, at, x.store)
     IN
-    IF x.subjects = "two-mixed" THEN "presenter-not-subject"
+    IF x.subjects = "two-mixed" \/ AnyElem(x, NotOfHolder) THEN "presenter-not-subject"
     ELSE IF x.subjects # "none" /\ d.vpSigner # "d" THEN "presenter-not-subject"
     ELSE IF x.subjects # "none" /\ x.holder = "other" THEN "holder-not-subject"
     \* jsonldProof: proof.ValidAt before the key is resolved; jwtSignature: the key is resolved before the token is validated
@@ -274,6 +302,7 @@ VerifyVP(x, d, at) ==
     ELSE IF ~key THEN "key-not-found"
     ELSE IF ~window THEN "not-valid-at-time"
     ELSE IF x.verifyVCs /\ x.subjects # "none" /\ CarriedVC(x) # "ok" THEN "invalid-vc"
+    ELSE IF x.verifyVCs /\ AnyElem(x, Defective) THEN "invalid-vc"       \* EVERY carried credential is verified, in order
     ELSE "ok"
 
 Verify ==
@@ -309,13 +338,14 @@ Failing(x) ==
         If(x.presenter = "subject" => AuthorisedAt(KeyLog(x.kh), "K", x.at), "unauthorised-key") \cup
         If(InWindow(4, x.exp, x.at), "outside-window") \cup
         \* signed by the subject of every credential it carries
-        If(x.subjects # "none" => (x.presenter = "subject" /\ x.subjects # "two-mixed"), "not-subject") \cup
+        If(x.subjects # "none" => (x.presenter = "subject" /\ x.subjects # "two-mixed" /\ ~AnyElem(x, NotOfHolder)), "not-subject") \cup
         \* and every carried credential is itself valid (when the caller asks for that)
-        If((x.verifyVCs /\ x.subjects # "none") => CarriedVC(x) = "ok", "invalid-credential")
+        If((x.verifyVCs /\ x.subjects # "none") => (CarriedVC(x) = "ok" /\ ~AnyElem(x, Defective)), "invalid-credential")
 Conjuncts(x) == Failing(x) = {}
 \* output of the node's own issuer / wallet from coherent input
 Own(x) == IF x.kind = "vc" THEN x.vm = "issuer"
           ELSE x.presenter = "subject" /\ x.holder # "other" /\ x.subjects # "two-mixed" /\ ~Forged(x.vcState)
+               /\ ~AnyElem(x, Defective) /\ ~AnyElem(x, NotOfHolder)
 
 Required(x) == IF x.fam = "mut" THEN (IF Semantic(x) THEN "reject" ELSE "any")
                ELSE IF ~Conjuncts(x) THEN "reject"
